@@ -10,7 +10,7 @@
 From Coq Require Import List NArith ZArith Bool.
 From SV Require Import Text.Str Text.Prog Text.ProgProofs Text.Tokenizer Text.TokenizerProofs Text.KvErrModel Text.KvErrProofs
   Text.BaseTok Text.BaseTokProofs Text.BaseTokTokenizer Text.BaseTokHelpers Text.ErrFmt Text.ErrFmtProofs
-  Text.HsTable Text.HsTableProofs Text.GtTable Text.GtTableProofs Text.GtExample.
+  Text.HsTable Text.HsTableProofs Text.GtTable Text.GtTableProofs Text.GtExample Text.NextChar.
 Import ListNotations.
 
 (** Generic: NO reader program can tell a chunked source from the flat string it denotes — same result, and the
@@ -330,4 +330,35 @@ Theorem c03_get_token_trees_refuted :
   /\ itokens_flat (gt_interp ex_tables ex_opts (steps_of bad_trees) (handle_string ex_tables ex_opts) 5) 3 1 false [CR; LF]
      = [RTok NEWLINE [LF] 2 true; RTok NEWLINE [LF] 3 false; RTok EOF [] 3 false]
   /\ tokens_flat ex_tables ex_opts 3 5 1 false [CR; LF] = [RTok NEWLINE [LF] 2 true; RTok EOF [] 2 false; RTok EOF [] 2 false].
+Proof. vm_compute. repeat split; reflexivity. Qed.
+
+(** Round 4: [_next_char] AS WRITTEN, and chunk sources that are not texts.  translate/c03_nextchar.py reads the fast path and
+    executes the refill part on abstract values for every thing the chunk iterator can do next (yield bytes / another non-str
+    object / the empty string / a non-empty string, be exhausted, raise UnicodeDecodeError / another exception).  If the rows are
+    the model's ([nc_rows_ok], instance obligation [next_char_rows_are_the_model]), then on a source of [str] chunks the function
+    IS the reader [cnext] that every theorem above is about ... *)
+Theorem c03_next_char_is_cnext : forall fast rows, nc_rows_ok fast rows = true -> forall s,
+  xnext (nc_tb rows) (xof s) = (XChar (fst (cnext s)), xof (snd (cnext s))).
+Proof. exact xnext_is_cnext. Qed.
+
+(** ... and the first thing that is not a [str] (after any number of empty chunks, when the current chunk is used up) is answered
+    precisely: ValueError for a bytes / non-str object (such a source is not a text: outside the property; nothing is silently
+    dropped), the tokenizer's own error (TokenSyntaxError / KeyValError, 'Could not decode file!') for UnicodeDecodeError - a file in
+    the wrong encoding is covered by "TokenSyntaxError and nothing else" -, any other exception of the iterator propagates. *)
+Theorem c03_next_char_first_non_text : forall fast rows, nc_rows_ok fast rows = true -> forall s n it r,
+  at_end s -> xmore s = repeat (IStr []) n ++ it :: r ->
+  fst (xnext (nc_tb rows) s) =
+  match it with
+  | IBytes | INonStr => XValueError
+  | IDecodeErr => XDecodeError
+  | IOtherErr => XPropagates
+  | IStr [] => fst (xnext (nc_tb rows) {| xcur := xcur s; xidx := xidx s; xmore := r |})
+  | IStr (c :: _) => XChar (Some c)
+  end.
+Proof. exact xnext_first_bad. Qed.
+
+Theorem c03_next_char_rows_refuted :
+  nc_rows_ok 1 nc_rows_of_spec = true /\ nc_rows_ok 1 nc_rows_bad = false
+  /\ fst (xnext (nc_tb nc_rows_bad) {| xcur := []; xidx := -1; xmore := [INonStr; IStr [65%N]] |}) = XChar (Some 65%N)
+  /\ fst (xnext (nc_tb nc_rows_bad) {| xcur := []; xidx := -1; xmore := [IDecodeErr] |}) = XPropagates.
 Proof. vm_compute. repeat split; reflexivity. Qed.
